@@ -15,6 +15,7 @@ import (
 	"os"
 	"regexp"
 	"runtime"
+	"runtime/debug"
 	"strings"
 	"sync"
 	"sync/atomic"
@@ -38,7 +39,7 @@ const (
 	subsidy     = 50e8
 	bannerText  = "THIS SHOULD NOT HAPPEN"
 	bannerEnd   = "END OF REPORT"
-	scriptWdog  = 25 * time.Second // generous per-script / per-call watchdog (scripts take milliseconds)
+	scriptWdog  = 12 * time.Second // per-script / per-call watchdog (scripts take milliseconds); suspects are confirmed alone with twice as much
 	lockRetries = 60               // x 2 ms: a leaked lock never becomes free, a busy one does
 )
 
@@ -685,7 +686,7 @@ func (h *harness) runScript(s *script) *scriptResult {
 	fc.stall = s.Stall
 	fc.quiet, fc.maxLinger = 2*time.Millisecond, 150*time.Millisecond
 	if s.Idx < 0 { // self-test: be patient, the answers are part of the check
-		fc.quiet, fc.maxLinger = 40*time.Millisecond, 2*time.Second
+		fc.quiet, fc.maxLinger = 150*time.Millisecond, 5*time.Second
 	}
 
 	h.nextIP++
@@ -798,7 +799,18 @@ func (h *harness) runScript(s *script) *scriptResult {
 	if !res.Closed {
 		fc.Close() // lets a leaked writing thread of an aborted Run see an error and stop spinning on data
 	}
+	dropGarbage()
 	return res
+}
+
+// dropGarbage returns memory of huge, already dead allocations to the OS, so that the address-space
+// cap of the child judges single requests of the node, not garbage accumulated by the harness loop.
+func dropGarbage() {
+	var ms runtime.MemStats
+	runtime.ReadMemStats(&ms)
+	if ms.HeapSys-ms.HeapReleased > 1<<30 {
+		debug.FreeOSMemory()
+	}
 }
 
 // anomaly says whether the observations contain anything the parent has to judge (the child is
